@@ -18,7 +18,7 @@ except Exception:  # pragma: no cover
 
 META = {
     "technique": "Lean 4 linear algebra (residual bound for Ritz pairs via the spectral theorem, Rayleigh upper bound, Davidson control-flow termination, RPA <= CIS for every root in general dimension: C16b.rpa_le_cis_all_roots) + dense-reference probes: the response matrices are assembled column by column and cross-validated against the ground-state Fock response, then diagonalised with LAPACK",
-    "level_text": "Theorems: for symmetric A, unit x and r = A x - theta x some eigenvalue lies within |r| of theta (so a small residual certifies a true eigenvalue); Ritz values are upper bounds; the modelled Davidson loop terminates within max_iter+1 iterations or raises; omega_RPA <= omega_CIS for 1x1 blocks with |B| <= A. Tied to the code by dense-reference probes on molecules with <= ~40 occupied-virtual pairs: the dense A and B are assembled from the package's sigma-vector routine, (A+B) is cross-checked against an independent construction from the ground-state Fock operator (C06/C01-validated), and the returned energies (ascending, positive, lowest), amplitudes (orthonormal, residual <= tolerance), independence of the start guess / amplitude reuse / batch composition and RPA <= CIS are checked. Round 2 (C16b): with A+B and A-B positive definite every RPA eigenvalue is real and positive, sqrt(lambda_k(S(A+B)S)) <= lambda_k(A) for EVERY root k in general dimension (RPA never exceeds CIS), the code's square-root/symmetrised product has exactly the RPA spectrum, and flipping the sign of X alone preserves the normalisation but destroys every solution with Y != 0.",
+    "level_text": "Theorems: for symmetric A, unit x and r = A x - theta x some eigenvalue lies within |r| of theta (so a small residual certifies a true eigenvalue); Ritz values are upper bounds; the modelled Davidson loop terminates within max_iter+1 iterations or raises; omega_RPA <= omega_CIS for 1x1 blocks with |B| <= A. Tied to the code by dense-reference probes on molecules with <= ~40 occupied-virtual pairs: the dense A and B are assembled from the package's sigma-vector routine, (A+B) is cross-checked against an independent construction from the ground-state Fock operator (C06/C01-validated), and the returned energies (ascending, positive, lowest), amplitudes (orthonormal, residual <= tolerance), independence of the start guess / amplitude reuse / batch composition and RPA <= CIS are checked. Round 2 (C16b): with A+B and A-B positive definite every RPA eigenvalue is real and positive, sqrt(lambda_k(S(A+B)S)) <= lambda_k(A) for EVERY root k in general dimension (RPA never exceeds CIS), the code's square-root/symmetrised product has exactly the RPA spectrum, and flipping the sign of X alone preserves the normalisation but destroys every solution with Y != 0. Round 4 (C16c, formal content of F20/F20b): Ritz pairs of a search space that is invariant under A are exact eigenpairs (all residuals vanish, the solver stops in its first iteration inside the block it started in), and a 3 x 3 witness in which both requested pairs have residual exactly 0 while a lower eigenvalue is never looked at: lowest-ness cannot follow from the solver's stopping test, which is why the probes compare with a dense diagonalisation.",
     "level_note": "Trusted: Lean kernel; harness; LAPACK eigh for the dense reference. Partial: 'lowest roots' and the general RPA <= CIS inequality are validated against the dense reference, not proved; the A-B (pure exchange) part of the sigma build has no independent reference beyond symmetry and RPA/CIS consistency.",
     "design_ref": "DESIGN.md section 5 C16",
 }
@@ -520,8 +520,10 @@ def _not_done_yet(rec, it, mi):
 
 def run(ctx: Ctx):
     leanproj.check_theorems(ctx, MODULE, THEOREMS)
-    from .registry import THEOREMS_C16B
+    from .registry import THEOREMS_C16B, THEOREMS_C16C
     leanproj.check_theorems(ctx, "PyseqmVerif.Properties.C16b", THEOREMS_C16B)
+    # formal content of the known findings F20 / F20b: zero residuals certify eigenpairs, not that they are the lowest
+    leanproj.check_theorems(ctx, "PyseqmVerif.Properties.C16c", THEOREMS_C16C)
     drv = leanproj.Driver()
     try:
         try:
